@@ -36,6 +36,8 @@ def single_locus(spec):
 
 
 def run(res, replay=None):
+    # structural tie of the class Transition of phasegen/state_space.py: translate the CURRENT source and re-check proofs/GenTransitionEquiv.v
+    import translate_step; (res.proof is not None) and translate_step.run(res.proof, pid=res.pid, tie='transition')
     # structural tie of phasegen/rewards.py: translate the CURRENT source and re-check proofs/GenRewardsEquiv.v against it
     import translate_step; (res.proof is not None) and translate_step.run(res.proof, pid=res.pid, tie='rewards')
     rng = random.Random(res.seed)
@@ -52,6 +54,10 @@ def run(res, replay=None):
     else:
         for i in range(nspec):
             nd = rng.choice([1, 1, 2])
+            # designed cases (independent of the random draws): the keyword route with initially UNLINKED lineages in one deme
+            # (i = 1), and the overriding keyword with value exactly 0 on fully linked samples (i = 3)
+            if i in (1, 3):
+                nd = 1
             n = rng.choice([2, 3] if (nd == 2 or res.tier == 'quick') else [2, 3, 4])
             s = gen.rand_spec(rng, n_total=n, n_demes=nd, n_epochs=rng.choice([1, 2]), loci=2)
             s['recombination_rate'] = rng.choice([0.0, 0.25, 0.5, 1.0, 4.0, 1024.0])
@@ -62,6 +68,12 @@ def run(res, replay=None):
                 # the keyword overrides a rate already stored in the LocusConfig - also when the keyword is exactly 0
                 s['recombination_rate'] = rng.choice([0.0, 0.0, 0.5, 4.0])
                 s['rec_cfg'] = rng.choice([1.0, 2.0, 8.0])
+            if i == 1:
+                s['n_unlinked'] = rng.randrange(1, n + 1)
+                s['recombination_rate'] = rng.choice([0.25, 1.0, 4.0])
+            if i == 3:
+                s['n_unlinked'] = 0
+                s['recombination_rate'] = 0.0
             specs.append(s)
     items = [dict(spec=s, lc=True, ops=build_ops(rng, s)) for s in specs]
     results = N.run_items(res, 'C06', 'twolocus', items, what='two-locus statistic differs from the ARG value (model)')
